@@ -162,9 +162,34 @@ def _pool_call(task):
     p = Partial()
     try:
         _POOL_FN(task, p)
+    except Exception as e:
+        if raised_in_repo(e):
+            # the implementation raised on an input the explorer generated: that is an observation, not a
+            # harness failure (explicit try/except at the call sites gives better messages where anticipated)
+            p.violation("unexpected_exception", {"task": repr(task)[:300], "exception": type(e).__name__},
+                        {"kind": "__task__", "task": repr(task)[:2000]},
+                        f"hdc-algo raised {type(e).__name__}: {e} while exploring task {repr(task)[:200]}\n" + short_tb(e))
+            return ("ok", p, None)
+        return ("error", traceback.format_exc(), task if isinstance(task, (int, str, tuple)) else None)
     except BaseException:  # harness failure inside a worker
         return ("error", traceback.format_exc(), task if isinstance(task, (int, str, tuple)) else None)
     return ("ok", p, None)
+
+
+def raised_in_repo(e):
+    """True when the innermost frames of the traceback are inside the repository under test."""
+    repo = os.path.realpath(os.environ.get("VERIF_REPO_DIR", "/repo"))
+    tb = e.__traceback__
+    files = []
+    while tb is not None:
+        files.append(os.path.realpath(tb.tb_frame.f_code.co_filename))
+        tb = tb.tb_next
+    return any(f.startswith(repo + os.sep) for f in files)
+
+
+def short_tb(e):
+    lines = traceback.format_exception(type(e), e, e.__traceback__)
+    return "".join(lines[-6:])[:1500]
 
 
 class Ctx(Partial):
